@@ -36,6 +36,8 @@ def run(ctx):
     ctx.step(share, ctx)
     ctx.step(common.handle_rules, ctx, "C02.handle", "gmlc::libguarded::shared_lock_handle", "shared")
     ctx.step(const_pointer, ctx)
+    # a shared handle is non-null exactly when it owns the lock (a try form that fails must not hand out the pointer)
+    ctx.step(common.acquisition_summaries, ctx, "C02.summary", CLASSES, opt_classes=("gmlc::libguarded::shared_guarded_opt",))
     ctx.step(common.helper_summaries, ctx, "C02.helpers", ["try_lock_shared_handle", "try_lock_shared_handle_for",
                                                            "try_lock_shared_handle_until"], "S")
     ctx.step(common.witnesses, ctx, "C02.witness", ["C02"])
